@@ -19,7 +19,10 @@ pub struct ConvergeScenario {
 pub fn property<C: Codec>() -> Property {
     Property {
         id: "C02",
-        scenarios: vec![erase::<C, _>(ConvergeScenario { unsol_only: false }), erase::<C, _>(ConvergeScenario { unsol_only: true })],
+        scenarios: vec![
+            erase::<C, _>(ConvergeScenario { unsol_only: false }),
+            erase::<C, _>(ConvergeScenario { unsol_only: true }),
+        ],
     }
 }
 
@@ -113,7 +116,10 @@ impl Scenario for ConvergeScenario {
         mcfg.assocs = vec![a];
         let mut script = vec![POp::Enable];
         if !self.unsol_only {
-            script.push(POp::AddPoll { classes: 0x0F, period_ms: *rng.pick(&[2000u64, 5000]) });
+            script.push(POp::AddPoll {
+                classes: 0x0F,
+                period_ms: *rng.pick(&[2000u64, 5000]),
+            });
         }
         let unsol_only = self.unsol_only;
         let tune = move |mut u: UpdateOp| -> UpdateOp {
@@ -129,31 +135,55 @@ impl Scenario for ConvergeScenario {
         for _ in 0..rounds {
             match rng.below(12) {
                 0..=3 => {
-                    let n = if rng.chance(1, 6) { rng.urange(20, 80) } else { rng.urange(1, 4) };
-                    script.push(POp::Update((0..n).map(|_| tune(gen_update(rng, &ocfg.points, &mut clock))).collect()));
+                    let n = if rng.chance(1, 6) {
+                        rng.urange(20, 80)
+                    } else {
+                        rng.urange(1, 4)
+                    };
+                    script.push(POp::Update(
+                        (0..n)
+                            .map(|_| tune(gen_update(rng, &ocfg.points, &mut clock)))
+                            .collect(),
+                    ));
                 }
                 4 => {
                     // a transaction from another thread exactly when the outstation task reaches a lock or wait point
                     let site = *rng.pick(&crate::verif::props::gen_out::LOCK_SITES);
                     let n = rng.urange(1, 3);
-                    script.push(POp::UpdateAtLock { site: site.to_string(), skip: rng.below(4) as u32, ops: (0..n).map(|_| tune(gen_update(rng, &ocfg.points, &mut clock))).collect() });
+                    script.push(POp::UpdateAtLock {
+                        site: site.to_string(),
+                        skip: rng.below(4) as u32,
+                        ops: (0..n)
+                            .map(|_| tune(gen_update(rng, &ocfg.points, &mut clock)))
+                            .collect(),
+                    });
                 }
                 5 => {
                     if rng.bool() {
                         script.push(POp::Cut { eof: rng.bool() });
                     } else {
                         // the connection dies right after something was written: the last fragment(s) never arrive
-                        script.push(POp::CutAfterWrites { to_master: rng.chance(3, 4), nth: rng.range(1, 5) as u32, eof: rng.chance(1, 4) });
+                        script.push(POp::CutAfterWrites {
+                            to_master: rng.chance(3, 4),
+                            nth: rng.range(1, 5) as u32,
+                            eof: rng.chance(1, 4),
+                        });
                     }
                 }
-                6 => script.push(POp::Stall { to_master: rng.bool(), ms: rng.range(100, 6000) }),
+                6 => script.push(POp::Stall {
+                    to_master: rng.bool(),
+                    ms: rng.range(100, 6000),
+                }),
                 7 => script.push(POp::NetPlan(vec![1])),
                 8 => {
                     if !unsol_only {
                         script.push(POp::User(UserKind::ReadClasses(*rng.pick(&[0x0Fu8, 0x07]))));
                     }
                 }
-                9 => script.push(POp::User(UserKind::Command { sbo: rng.bool(), headers: vec![vec![(0, rng.below(3) as u16, false)]] })),
+                9 => script.push(POp::User(UserKind::Command {
+                    sbo: rng.bool(),
+                    headers: vec![vec![(0, rng.below(3) as u16, false)]],
+                })),
                 10 => {
                     if !unsol_only {
                         script.push(POp::DemandPoll(0));
@@ -179,7 +209,11 @@ impl Scenario for ConvergeScenario {
             ctrl: CtrlAnswers::AllSuccess,
             chunk: (rng.below(5) as u8, rng.below(5) as u8),
             chunk_seed: rng.next_u64(),
-            latency: if rng.chance(1, 2) { (rng.below(40), rng.below(40)) } else { (0, 0) },
+            latency: if rng.chance(1, 2) {
+                (rng.below(40), rng.below(40))
+            } else {
+                (0, 0)
+            },
             script,
             tail_ms: 90_000,
         }
@@ -195,7 +229,15 @@ impl Scenario for ConvergeScenario {
 }
 
 /// does what the master's handler received equal this recorded value (as far as the variation carried it)?
-fn same(ptype: PointType, m: &RxMeas, value: f64, bytes: &[u8], flags: u8, time: Option<u64>, check_time: bool) -> bool {
+fn same(
+    ptype: PointType,
+    m: &RxMeas,
+    value: f64,
+    bytes: &[u8],
+    flags: u8,
+    time: Option<u64>,
+    check_time: bool,
+) -> bool {
     if ptype == PointType::OctetString {
         return m.bytes == bytes;
     }
@@ -204,9 +246,17 @@ fn same(ptype: PointType, m: &RxMeas, value: f64, bytes: &[u8], flags: u8, time:
     }
     // a packed single- or double-bit variation carries no flag octet because the outstation only uses it for points whose
     // flags are exactly ONLINE (anything else is promoted to the variation with flags): receiving it says "ONLINE"
-    let packed = !m.has_flags && matches!(m.variation.as_str(), "Group1Var1" | "Group3Var1" | "Group10Var1");
+    let packed = !m.has_flags
+        && matches!(
+            m.variation.as_str(),
+            "Group1Var1" | "Group3Var1" | "Group10Var1"
+        );
     if packed {
-        let mask = if ptype == PointType::DoubleBit { 0x3F } else { 0x7F };
+        let mask = if ptype == PointType::DoubleBit {
+            0x3F
+        } else {
+            0x7F
+        };
         if (wire_flags(ptype, flags, value) & mask) != 0x01 {
             return false;
         }
@@ -231,7 +281,10 @@ fn same(ptype: PointType, m: &RxMeas, value: f64, bytes: &[u8], flags: u8, time:
     true
 }
 
-pub fn analyse(case: &PairCase, run: &PairRun) -> (Option<Violation>, bool, u64, Vec<(String, u64)>) {
+pub fn analyse(
+    case: &PairCase,
+    run: &PairRun,
+) -> (Option<Violation>, bool, u64, Vec<(String, u64)>) {
     let mut counters: BTreeMap<String, u64> = BTreeMap::new();
     let mut bump = |k: &str, n: u64| *counters.entry(k.to_string()).or_insert(0) += n;
     let mut violation: Option<Violation> = None;
@@ -239,14 +292,19 @@ pub fn analyse(case: &PairCase, run: &PairRun) -> (Option<Violation>, bool, u64,
     // history of the static value of every point: (virtual ms from which it held, value)
     let mut held: BTreeMap<(PointType, u16), Vec<(u64, StaticVal)>> = BTreeMap::new();
     for p in &case.ocfg.points {
-        held.entry((p.ptype, p.index)).or_insert_with(|| vec![(0, default_static(p.ptype))]);
+        held.entry((p.ptype, p.index))
+            .or_insert_with(|| vec![(0, default_static(p.ptype))]);
     }
     // updates and the outstation's "event cleared" callbacks in the order they happened
     enum E<'a> {
         Update(u64, &'a UpdateOp, crate::outstation::database::UpdateInfo),
         Cleared(u64),
     }
-    let mut evs: Vec<(u64, E)> = run.updates.iter().map(|(t, o, op, info)| (*o, E::Update(*t, op, *info))).collect();
+    let mut evs: Vec<(u64, E)> = run
+        .updates
+        .iter()
+        .map(|(t, o, op, info)| (*o, E::Update(*t, op, *info)))
+        .collect();
     for (_, o, cb) in &run.out_log {
         if let crate::verif::nodes::outstation::Cb::EventCleared(id) = cb {
             evs.push((*o, E::Cleared(*id)));
@@ -260,7 +318,15 @@ pub fn analyse(case: &PairCase, run: &PairRun) -> (Option<Violation>, bool, u64,
                     violation.get_or_insert(Violation::new("C02/event-buffer-bookkeeping", "", e));
                 }
                 if op.update_static && ledger.points.contains_key(&(op.ptype, op.index)) {
-                    held.entry((op.ptype, op.index)).or_default().push((*t, StaticVal { value: op.value, bytes: op.bytes.clone(), flags: op.flags, time: op.time }));
+                    held.entry((op.ptype, op.index)).or_default().push((
+                        *t,
+                        StaticVal {
+                            value: op.value,
+                            bytes: op.bytes.clone(),
+                            flags: op.flags,
+                            time: op.time,
+                        },
+                    ));
                 }
             }
             E::Cleared(id) => {
@@ -306,7 +372,12 @@ pub fn analyse(case: &PairCase, run: &PairRun) -> (Option<Violation>, bool, u64,
                 }
                 if m.is_event {
                     // provenance: an event created for exactly this point, no later than now
-                    let found = ledger.events.values().any(|e| e.ptype == m.ptype && e.index == m.index && e.created_ms <= *t && same(m.ptype, m, e.value, &e.bytes, e.flags, Some(e.time), true));
+                    let found = ledger.events.values().any(|e| {
+                        e.ptype == m.ptype
+                            && e.index == m.index
+                            && e.created_ms <= *t
+                            && same(m.ptype, m, e.value, &e.bytes, e.flags, Some(e.time), true)
+                    });
                     if !found {
                         violation.get_or_insert(Violation::new(
                             "C02/event-never-created",
@@ -328,13 +399,18 @@ pub fn analyse(case: &PairCase, run: &PairRun) -> (Option<Violation>, bool, u64,
                     for (k, (since, v)) in hist.iter().enumerate() {
                         let until = hist.get(k + 1).map(|n| n.0).unwrap_or(u64::MAX);
                         // held during [since, until]: overlaps [from, t]?
-                        if *since <= *t && until >= from && same(m.ptype, m, v.value, &v.bytes, v.flags, None, false) {
+                        if *since <= *t
+                            && until >= from
+                            && same(m.ptype, m, v.value, &v.bytes, v.flags, None, false)
+                        {
                             ok = true;
                             break;
                         }
                     }
                     if !ok {
-                        let ever = hist.iter().any(|(_, v)| same(m.ptype, m, v.value, &v.bytes, v.flags, None, false));
+                        let ever = hist.iter().any(|(_, v)| {
+                            same(m.ptype, m, v.value, &v.bytes, v.flags, None, false)
+                        });
                         violation.get_or_insert(Violation::new(
                             if ever { "C02/stale-static-value" } else { "C02/static-value-never-held" },
                             format!("{:?}", m.ptype),
@@ -361,14 +437,33 @@ pub fn analyse(case: &PairCase, run: &PairRun) -> (Option<Violation>, bool, u64,
     bump("probe.static_values_delivered", n_static);
     bump("probe.events_delivered", delivered_events.len() as u64);
     bump("probe.events_created", ledger.events.len() as u64);
-    bump("probe.events_discarded", ledger.events.values().filter(|e| e.state == EvState::Discarded).count() as u64);
+    bump(
+        "probe.events_discarded",
+        ledger
+            .events
+            .values()
+            .filter(|e| e.state == EvState::Discarded)
+            .count() as u64,
+    );
 
     // after the quiet tail: faults have stopped, the network is whole
     let last_fault = case
         .script
         .iter()
         .enumerate()
-        .filter(|(_, op)| matches!(op, POp::Cut { .. } | POp::CutAfterWrites { .. } | POp::Stall { .. } | POp::NetPlan(_) | POp::Disable | POp::Enable | POp::Update(_) | POp::UpdateAtLock { .. }))
+        .filter(|(_, op)| {
+            matches!(
+                op,
+                POp::Cut { .. }
+                    | POp::CutAfterWrites { .. }
+                    | POp::Stall { .. }
+                    | POp::NetPlan(_)
+                    | POp::Disable
+                    | POp::Enable
+                    | POp::Update(_)
+                    | POp::UpdateAtLock { .. }
+            )
+        })
         .filter_map(|(i, op)| {
             run.op_marks.iter().find(|m| m.0 == i).map(|m| match op {
                 POp::Stall { ms, .. } => m.1 + ms,
@@ -378,19 +473,33 @@ pub fn analyse(case: &PairCase, run: &PairRun) -> (Option<Violation>, bool, u64,
         .max()
         .unwrap_or(0)
         .max(run.updates.iter().map(|u| u.0).max().unwrap_or(0));
-    let unsol_only = !case.script.iter().any(|op| matches!(op, POp::AddPoll { .. }));
+    let unsol_only = !case
+        .script
+        .iter()
+        .any(|op| matches!(op, POp::AddPoll { .. }));
     let enabled_at_end = case.script.iter().rev().find_map(|op| match op {
         POp::Enable => Some(true),
         POp::Disable => Some(false),
         _ => None,
     }) == Some(true);
-    let settled = enabled_at_end && connected && run.end_ms.saturating_sub(last_fault) >= 60_000 && run.end_ms.saturating_sub(connected_since) >= 30_000;
+    let settled = enabled_at_end
+        && connected
+        && run.end_ms.saturating_sub(last_fault) >= 60_000
+        && run.end_ms.saturating_sub(connected_since) >= 30_000;
     if settled && violation.is_none() {
         bump("probe.convergence_checked", 1);
         // (e) every event that was not discarded reached the handler at least once
         let mut pool: Vec<&RxMeas> = delivered_events.iter().map(|d| &d.1).collect();
-        for e in ledger.events.values().filter(|e| e.state != EvState::Discarded) {
-            let pos = pool.iter().position(|m| m.ptype == e.ptype && m.index == e.index && same(e.ptype, m, e.value, &e.bytes, e.flags, Some(e.time), true));
+        for e in ledger
+            .events
+            .values()
+            .filter(|e| e.state != EvState::Discarded)
+        {
+            let pos = pool.iter().position(|m| {
+                m.ptype == e.ptype
+                    && m.index == e.index
+                    && same(e.ptype, m, e.value, &e.bytes, e.flags, Some(e.time), true)
+            });
             match pos {
                 Some(i) => {
                     // identical events are matched one to one (re-deliveries only add to the pool)
@@ -421,13 +530,28 @@ pub fn analyse(case: &PairCase, run: &PairRun) -> (Option<Violation>, bool, u64,
         // event of that point fell victim to an overflow
         if unsol_only {
             for (key, v) in &ledger.mirror {
-                let newest = ledger.events.values().filter(|e| e.ptype == key.0 && e.index == key.1).max_by_key(|e| e.id);
+                let newest = ledger
+                    .events
+                    .values()
+                    .filter(|e| e.ptype == key.0 && e.index == key.1)
+                    .max_by_key(|e| e.id);
                 // ... unless the master is configured to run an integrity poll when the outstation reports the overflow
-                let integrity_on_overflow = case.mcfg.assocs.first().map(|a| a.integrity_on_overflow).unwrap_or(false);
-                if newest.map(|e| e.state == EvState::Discarded).unwrap_or(false) && !integrity_on_overflow {
+                let integrity_on_overflow = case
+                    .mcfg
+                    .assocs
+                    .first()
+                    .map(|a| a.integrity_on_overflow)
+                    .unwrap_or(false);
+                if newest
+                    .map(|e| e.state == EvState::Discarded)
+                    .unwrap_or(false)
+                    && !integrity_on_overflow
+                {
                     continue;
                 }
-                let last_ev_i = delivered_events.iter().rposition(|d| d.1.ptype == key.0 && d.1.index == key.1);
+                let last_ev_i = delivered_events
+                    .iter()
+                    .rposition(|d| d.1.ptype == key.0 && d.1.index == key.1);
                 let last_ev = last_ev_i.map(|i| &delivered_events[i]);
                 let last_st = last_static.get(key);
                 let ev_later = match (last_ev_i, last_static_pos.get(key)) {
@@ -487,7 +611,16 @@ pub fn analyse(case: &PairCase, run: &PairRun) -> (Option<Violation>, bool, u64,
             }
         }
     }
-    let faults = case.script.iter().filter(|op| matches!(op, POp::Cut { .. } | POp::Stall { .. } | POp::NetPlan(_) | POp::Disable)).count() as u64;
+    let faults = case
+        .script
+        .iter()
+        .filter(|op| {
+            matches!(
+                op,
+                POp::Cut { .. } | POp::Stall { .. } | POp::NetPlan(_) | POp::Disable
+            )
+        })
+        .count() as u64;
     let nontrivial = faults > 0 && !ledger.events.is_empty();
     let fp = mix(&[
         case.ocfg.unsolicited as u64,
